@@ -19,15 +19,15 @@ import (
 
 // SimSpec describes a TLC simulation run of the Iavl specification family.
 type SimSpec struct {
-	Module  string
-	Spec    string // SPECIFICATION name
-	K, V    int
-	IVs     string
-	D       int
-	Num     int // behaviours per worker
-	Workers int
-	Classes []string
-	Invs    []string
+	Module     string
+	Spec       string // SPECIFICATION name
+	K, V       int
+	IVs        string
+	D          int
+	Num        int // behaviours per worker
+	Workers    int
+	Classes    []string
+	Invs       []string
 	ExtraConst string
 	ExtraDefs  string // extra definitions for the generated wrapper module
 }
@@ -72,21 +72,21 @@ type McSpec struct {
 // BehavCheck is the generic pipeline: model-check the specification on a bounded instance,
 // let TLC generate behaviours, replay each on the real library under sampled configurations.
 type BehavCheck struct {
-	ID         string
-	Tier       string
-	Seed       int64
-	Mc         []McSpec
-	Sim        SimSpec
+	ID   string
+	Tier string
+	Seed int64
+	Mc   []McSpec
+	Sim  SimSpec
 	// ShortNum > 0: a second batch of short behaviours (depth ShortD) per simulation process, so that
 	// what needs a particular start of a history (empty store, first commit, first open) is hit often
 	ShortNum, ShortD int
-	Classes    exec.Classes
-	Extra      func(e *exec.Executor, stepIdx int, s *model.Step) *exec.Violation
-	ConfigsPer int // configurations per behaviour
-	Configure  func(rng *rand.Rand, c *exec.Config)
-	Nontrivial func(b *model.Behaviour) bool
-	Rule       string
-	Assume     []string
+	Classes          exec.Classes
+	Extra            func(e *exec.Executor, stepIdx int, s *model.Step) *exec.Violation
+	ConfigsPer       int // configurations per behaviour
+	Configure        func(rng *rand.Rand, c *exec.Config)
+	Nontrivial       func(b *model.Behaviour) bool
+	Rule             string
+	Assume           []string
 	// Classify maps a violation to a listed finding id ("" = none).
 	Classify func(v *exec.Violation, b *model.Behaviour, c exec.Config) string
 	// OwnFindings are the finding ids that belong to this property.
@@ -141,12 +141,12 @@ type cfgJSON struct {
 }
 
 type result struct {
-	b       *model.Behaviour
-	cfg     exec.Config
-	palSeed int64
+	b        *model.Behaviour
+	cfg      exec.Config
+	palSeed  int64
 	execSeed int64
-	out     *exec.Outcome
-	stats   exec.Stats
+	out      *exec.Outcome
+	stats    exec.Stats
 }
 
 func (c *BehavCheck) runOne(b *model.Behaviour, cfg exec.Config, execSeed int64) (*exec.Outcome, exec.Stats) {
@@ -471,7 +471,6 @@ func (c *BehavCheck) Run() int {
 		c.ID, c.Tier, c.Seed, len(behs), per, steps, observations, states, transitions, time.Since(start).Seconds())
 	return 0
 }
-
 
 // GenerateBehaviours runs several single-worker TLC simulations (different seeds: within one process
 // all workers draw the same sequence of action classes) and parses the behaviours they print.
